@@ -1,7 +1,7 @@
 (* C11 — every sentence of the CDCN grammar is accepted with its intended meaning.
    Statements only; the proofs are in LiteralProofs.v, ParserProofs.v, CdcnProofs.v, Grammar.v. *)
 From Coq Require Import String.
-From Verif Require Import Base Params Value Lexer Literals Parser LexerProofs ParserProofs CdcnProofs LiteralProofs ParseRun Grammar LexBridge LexBridge2.
+From Verif Require Import Base Params Value Lexer Literals Parser LexerProofs ParserProofs CdcnProofs LiteralProofs ParseRun Grammar Complete LexBridge LexBridge2 LexBridge3 StripInv LexRender.
 Close Scope string_scope.
 Open Scope Z_scope.
 
@@ -12,9 +12,16 @@ Theorem C11_parse_depends_on_tokens : forall fparse crank a b,
   lex a = lex b -> parse_source fparse crank a = parse_source fparse crank b.
 Proof. exact parse_depends_on_tokens. Qed.
 
+(* parser instances carry no state between calls in the model: the k-th outcome of a sequence
+   of calls is the outcome of the k-th text alone (the harness parses groups of texts, failing
+   and valid ones mixed, on ONE cdcn.Parser().Make() instance and compares every call) *)
+Theorem C11_calls_independent : forall fparse crank before src after,
+  nth (length before) (calls fparse crank (before ++ src :: after)) POutOfFuel = parse_source fparse crank src.
+Proof. exact calls_independent. Qed.
+
 (* literal_exact: an accepted source contains no literal whose conversion failed — an
-   out-of-range integer or hexadecimal, an escape Go rejects, an overflowing float, a complex
-   literal strconv rejects are never replaced by another value ... *)
+   out-of-range integer or hexadecimal, an escape Go rejects, an overflowing float (also as a part
+   of a complex literal) are never replaced by another value ... *)
 Theorem C11_literal_exact : forall fparse crank src v t,
   parse_source fparse crank src = PValue v ->
   In t (lex src) -> is_lit (ttype_of t) = true ->
@@ -55,15 +62,36 @@ Proof. exact parse_int_range. Qed.
 Theorem C11_hexadecimal_range : forall text v, parse_hex text = Some v -> v < two64.
 Proof. exact parse_hex_range. Qed.
 
-(* parser_complete.  FULL STATEMENT (not proved in general):
-     forall fparse crank d v n, denote fparse crank d = Some v -> (d is a Collection) ->
-       parse_tokens fparse crank (render d ++ repeat EOLT n ++ [EOFT]) = PValue v
-   where [render] is the token sequence of a derivation tree of Syntax.cdsn and [denote] its
-   meaning (Grammar.v).  Proved: exhaustively for all derivations up to the size bound of
-   Grammar.level1 / level2 (3,906 + 2,598 derivation trees: every item-list form incl. both
-   empty forms, lengths 0..3, all seven contexts, nesting 2, repeated keys, literals without
-   exact value), each with 0..2 trailing EOL tokens — and conversely no derivation without
-   meaning among them is accepted.  Missing: the induction over arbitrary derivations. *)
+(* parser_complete, for ALL derivations (Complete.v).  [dcoll fparse crank ts v] is the
+   derivation relation of Syntax.cdsn at token level (Collection = "[" Items "]" "(" type ")";
+   Items = Values inline / multi-line / empty, Associations inline / multi-line / ":"; tokens
+   characterised by type and text, any line and position) together with the denoted value:
+   literals through literal_value, association lists de-duplicated by key (first position,
+   last value), the collection of the stated type through Parser.build.  The side conditions
+   are premises of the derivation: every literal converts and build succeeds (associations
+   under Catalog / Map, no collator panic while a Set is built).  Whatever follows the EOF
+   token, the sentence  Collection EOL* EOF  is accepted with that value. *)
+Theorem C11_parser_complete : forall fparse crank ts v eols eof tl,
+  dcoll fparse crank ts v -> Forall eolt eols -> ttype_of eof = TEOF ->
+  parse_tokens fparse crank (ts ++ eols ++ eof :: tl) = PValue v.
+Proof. exact parser_complete. Qed.
+Theorem C11_parser_complete_source : forall fparse crank src ts v eols eof,
+  lex src = ts ++ eols ++ [eof] -> dcoll fparse crank ts v -> Forall eolt eols -> ttype_of eof = TEOF ->
+  parse_source fparse crank src = PValue v.
+Proof. exact parser_complete_source. Qed.
+(* the engine of the proof: what every parse function does on a derivation, from any state
+   whose push-back stack holds at most 3 tokens (exact stream left over, push-back bound) *)
+Theorem C11_derivation_complete : forall fparse crank,
+  (forall ts v, dvalue fparse crank ts v -> Pv fparse crank ts v) /\ (forall ts v, dcoll fparse crank ts v -> Pc fparse crank ts v) /\
+  (forall ts items, ditems fparse crank ts items -> Pi fparse crank ts items) /\
+  (forall ts vs, dvtail_i fparse crank ts vs -> Pvi fparse crank ts vs) /\ (forall ts vs, dvtail_m fparse crank ts vs -> Pvm fparse crank ts vs) /\
+  (forall ts kv, dassoc fparse crank ts kv -> Pa fparse crank ts kv) /\
+  (forall ts kvs, datail_i fparse crank ts kvs -> Pai fparse crank ts kvs) /\ (forall ts kvs, datail_m fparse crank ts kvs -> Pam fparse crank ts kvs).
+Proof. exact derivation_complete. Qed.
+
+(* sanity check of the same statement on the independent tree formulation of Grammar.v
+   (render / denote as functions), exhaustively by computation up to a size bound, and the
+   converse there: no derivation tree without meaning is accepted *)
 Theorem C11_parser_complete_partial :
   forall d n, In d (level1 ++ level2) -> (n <= 2)%nat -> accepts no_floats (default_crank []) d n = true.
 Proof. exact parser_complete_partial. Qed.
@@ -76,8 +104,7 @@ Proof. exact parser_sound_partial. Qed.
 
 (* character level, per token class (the bridge to the formatter's text, C10): a well-formed
    text of the class followed by a separator (end, space, newline, delimiter) is scanned as
-   exactly that class with exactly that length.  Partial: complex literals and the unicode
-   escapes (x, u, U forms) inside runes and strings are covered by the correspondence only. *)
+   exactly that class with exactly that length: every token class of the scanner is covered. *)
 Theorem C11_first_integer : forall ds rest, int_text ds -> sep_start rest ->
   try_types scan_order_t (ds ++ rest) = Some (TInteger, length ds).
 Proof. exact first_integer. Qed.
@@ -105,6 +132,50 @@ Proof. exact first_rune_simple_escape. Qed.
 Theorem C11_first_string_escaped : forall ps rest, forallb piece_ok ps = true ->
   try_types scan_order_t (34 :: flat ps ++ 34 :: rest) = Some (TString, (2 + length (flat ps))%nat).
 Proof. exact first_string_escaped. Qed.
+Theorem C11_first_complex : forall f1 s f2 rest, float_text f1 -> is_sign s = true -> float_text f2 ->
+  try_types scan_order_t (40 :: f1 ++ s :: f2 ++ 105 :: 41 :: rest) = Some (TComplex, (length f1 + length f2 + 4)%nat).
+Proof. exact first_complex. Qed.
+Theorem C11_first_rune_x : forall hs rest, hexes 2 hs ->
+  try_types scan_order_t (39 :: 92 :: 120 :: hs ++ 39 :: rest) = Some (TRune, 6%nat).
+Proof. exact first_rune_x. Qed.
+Theorem C11_first_rune_u : forall hs rest, hexes 4 hs ->
+  try_types scan_order_t (39 :: 92 :: 117 :: hs ++ 39 :: rest) = Some (TRune, 8%nat).
+Proof. exact first_rune_u. Qed.
+Theorem C11_first_rune_U : forall hs rest, hexes 8 hs ->
+  try_types scan_order_t (39 :: 92 :: 85 :: hs ++ 39 :: rest) = Some (TRune, 12%nat).
+Proof. exact first_rune_U. Qed.
+Theorem C11_first_string_full : forall ps rest, forallb piece_good ps = true ->
+  try_types scan_order_t (34 :: flat3 ps ++ 34 :: rest) = Some (TString, (2 + length (flat3 ps))%nat).
+Proof. exact first_string_full. Qed.
+
+(* composition: lexing a rendered token list gives the tokens back (Space tokens dropped, a
+   lone control character renamed, lines and positions as the scanner assigns them), then
+   EOF, provided every token text followed by the rest of the rendering is picked by one
+   round of scanTokens as its class and length (scannable; LexRender.sc_* discharge it class
+   by class); and the whole way from a rendering to the parsed value *)
+Theorem C11_lex_render : forall ts, scannable ts -> lex (render_toks ts) = place ts 1 1.
+Proof. exact lex_render. Qed.
+Theorem C11_place_strip : forall ts line pos,
+  map strip (place ts line pos) = map (fun x => (fst x, rename (snd x))) (filter visible ts) ++ [(TEOF, [])].
+Proof. exact place_strip. Qed.
+Theorem C11_parse_render : forall fparse crank ts dts v eols eof,
+  scannable ts -> place ts 1 1 = dts ++ eols ++ [eof] ->
+  dcoll fparse crank dts v -> Forall eolt eols -> ttype_of eof = TEOF ->
+  parse_source fparse crank (render_toks ts) = PValue v.
+Proof. exact parse_render. Qed.
+
+(* derivations do not depend on lines and positions, so the derivation may be given on any
+   tokens with the types and texts of the rendering's visible tokens *)
+Theorem C11_dcoll_strip : forall fparse crank ts ts' v,
+  dcoll fparse crank ts v -> map strip ts' = map strip ts -> dcoll fparse crank ts' v.
+Proof. exact dcoll_strip. Qed.
+Theorem C11_parse_render_strip : forall fparse crank ts dts v n,
+  scannable ts ->
+  map (fun x => (fst x, rename (snd x))) (filter visible ts) = map strip dts ++ repeat (TEOL, zs "<EOLN>") n ->
+  dcoll fparse crank dts v ->
+  parse_source fparse crank (render_toks ts) = PValue v.
+Proof. exact parse_render_strip. Qed.
+
 Theorem C11_first_words : forall rest,
   try_types scan_order_t (zs "true" ++ rest) = Some (TBoolean, 4%nat) /\
   try_types scan_order_t (zs "false" ++ rest) = Some (TBoolean, 5%nat) /\
@@ -127,12 +198,25 @@ Example C11_ex_repeated_key_first_position_last_value :
   parse_source (fun _ => None) (default_crank []) (zs "['a': 1, 'b': 2, 'a': 3](Catalog)")
   = PValue (VMapping MCatalog [VRune 97; VRune 98] [VInt 64 3; VInt 64 2]).
 Proof. vm_compute. reflexivity. Qed.
+(* every sign combination of a complex literal has a value: real ± imaginary (fix 35);
+   4607182418800017408 = 1.0, 4611686018427387904 = 2.0, 13835058055282163712 = -2.0 *)
+Example C11_ex_complex_sign_combinations :
+  parse_source (fun t => if list_eqb Z.eqb t (zs "1.0") then Some 4607182418800017408
+                         else if list_eqb Z.eqb t (zs "2.0") then Some 4611686018427387904
+                         else if list_eqb Z.eqb t (zs "+2.0") then Some 4611686018427387904
+                         else if list_eqb Z.eqb t (zs "-2.0") then Some 13835058055282163712 else None)
+    (default_crank []) (zs "[(1.0+2.0i), (1.0-2.0i), (1.0++2.0i), (1.0+-2.0i), (1.0-+2.0i), (1.0--2.0i)](List)")
+  = PValue (VSeq KList [VComplex 128 4607182418800017408 4611686018427387904 0 0; VComplex 128 4607182418800017408 13835058055282163712 0 0;
+                        VComplex 128 4607182418800017408 4611686018427387904 0 0; VComplex 128 4607182418800017408 13835058055282163712 0 0;
+                        VComplex 128 4607182418800017408 13835058055282163712 0 0; VComplex 128 4607182418800017408 4611686018427387904 0 0]).
+Proof. vm_compute. reflexivity. Qed.
 Example C11_ex_float_through_oracle :
   parse_source (fun t => if list_eqb Z.eqb t (zs "1.5e+3") then Some 4654311885213007872 else None) (default_crank [])
     (zs "[1.5e+3](Array)") = PValue (VSeq KArray [VFloat 64 4654311885213007872]).
 Proof. vm_compute. reflexivity. Qed.
 
 Print Assumptions C11_parse_depends_on_tokens.
+Print Assumptions C11_calls_independent.
 Print Assumptions C11_literal_exact.
 Print Assumptions C11_accepted_consumes_all.
 Print Assumptions C11_literal_rejected_is_located.
@@ -143,6 +227,9 @@ Print Assumptions C11_integer_meaning_minus.
 Print Assumptions C11_hexadecimal_meaning.
 Print Assumptions C11_integer_range.
 Print Assumptions C11_hexadecimal_range.
+Print Assumptions C11_parser_complete.
+Print Assumptions C11_parser_complete_source.
+Print Assumptions C11_derivation_complete.
 Print Assumptions C11_parser_complete_partial.
 Print Assumptions C11_accepts_means.
 Print Assumptions C11_parser_sound_partial.
@@ -155,4 +242,14 @@ Print Assumptions C11_first_float.
 Print Assumptions C11_first_rune_plain.
 Print Assumptions C11_first_rune_simple_escape.
 Print Assumptions C11_first_string_escaped.
+Print Assumptions C11_first_complex.
+Print Assumptions C11_first_rune_x.
+Print Assumptions C11_first_rune_u.
+Print Assumptions C11_first_rune_U.
+Print Assumptions C11_first_string_full.
+Print Assumptions C11_lex_render.
+Print Assumptions C11_place_strip.
+Print Assumptions C11_parse_render.
+Print Assumptions C11_dcoll_strip.
+Print Assumptions C11_parse_render_strip.
 Print Assumptions C11_first_words.
